@@ -409,4 +409,25 @@ namespace c13
       return true;
     }
   };
+  /// iterates all surjective maps {0..n-1} -> {0..p-1}
+  inline bool next_assign(std::vector<int>& a, int p)
+  {
+    for(;;)
+    {
+      size_t i = 0;
+      while(i < a.size() && a[i] == p - 1) { a[i] = 0; ++i; }
+      if(i == a.size()) return false;
+      ++a[i];
+      std::vector<char> seen(size_t(p), 0); int ns = 0;
+      for(int x : a) if(!seen[size_t(x)]) { seen[size_t(x)] = 1; ++ns; }
+      if(ns == p) return true;
+    }
+  }
+  inline bool first_assign(std::vector<int>& a, size_t n, int p)
+  {
+    a.assign(n, 0);
+    if(p == 1) return n > 0;
+    if(size_t(p) > n) return false;
+    return next_assign(a, p);
+  }
 } // namespace c13
